@@ -177,8 +177,16 @@ struct World
 			error_code e2; API(c.csock->non_blocking(true, e2));
 			kick(c);
 		})));
+		if (early_io)
+		{
+			// operations started while the handshake is still in progress are parked by the library and must
+			// be started when the connection is established
+			R().count("connections_with_io_started_before_established");
+			c.c.start_read(); c.c.start_write();
+		}
 	}
 
+	bool early_io = false;
 	bool traffic_enabled = true;
 	bool move_after_connect = false;
 	// (re)start reads and writes on both sides once both ends are up
@@ -429,8 +437,21 @@ void case_c06(Args const& a, std::uint64_t c)
 	w.build();
 	Conn& cn = w.add_conn();
 	w.traffic_enabled = false;
+	if (rng.coin(1, 4))
+	{
+		// the client starts reading and writing right after async_connect(), before the handshake completes
+		w.early_io = true; w.traffic_enabled = true;
+		cn.c.goal = std::uint64_t(rng.range(1, 4 * w.mtu)); cn.c.wpat = 1 + rng.choose(4);
+		cn.c.rstyle = rng.choose(3); cn.s.rstyle = rng.choose(3);
+		w.desc += fmt(" early-write %" PRIu64, cn.c.goal);
+	}
 	w.connect(cn);
 	w.runner->run();
+	if (w.early_io && cn.connected && cn.accepted)
+	{
+		classify_stall(w, cn, cn.s, cn.c, "client->server (write started before the connection was established)");
+		w.early_io = false;
+	}
 	if (!cn.connected || !cn.accepted)
 	{
 		R().violation("C06", "connect-unanswered", w.desc + fmt(": connect to a listening acceptor with an accept outstanding: connected=%d accepted=%d at quiescence"
@@ -532,6 +553,7 @@ void case_c05(Args const& a, std::uint64_t c, bool patterns)
 		w.fault->delay_unit_ns = rng.pick(std::vector<std::int64_t>{1000, 1000000, 30000000, 200000000});
 		w.desc += fmt(" script=%d tail drop%%=%d delay%%=%d", m, w.fault->tail_drop_pct, w.fault->tail_delay_pct);
 	}
+	if (!patterns) w.early_io = rng.coin(1, 4);
 	int const nconn = patterns ? 1 : 1 + rng.choose(2);
 	for (int i = 0; i < nconn; ++i) w.add_conn();
 
